@@ -1,16 +1,16 @@
 // stormdrv: concurrent workloads on a real broker (oracle only; properties C17, C05, C16, C18, C19).
 //
-//   storm     many publishers deliver to shared subscribers at once, with payload sizes that make
-//             the 256 KiB outgoing rings wrap mid-packet: every byte each subscriber receives must
-//             parse as whole well-formed packets, and each publisher's messages must arrive in
-//             order (C17); run under the race detector it is the workload of C18
-//   cut       a subscriber is cut off at a random moment while publishers deliver to it: the
-//             publishers and a witness pair must not notice (C05)
-//   teardown  connections end for every cause in every buffer condition (idle, own outgoing ring
-//             full, incoming ring full behind a third party's full ring, cross-blocked pairs) and
-//             in every order: each teardown must finish, Server.Close must return, and no goroutine
-//             of the library may remain (C16)
-//   keepalive silent and active clients with a keep-alive of one second (C19)
+//	storm     many publishers deliver to shared subscribers at once, with payload sizes that make
+//	          the 256 KiB outgoing rings wrap mid-packet: every byte each subscriber receives must
+//	          parse as whole well-formed packets, and each publisher's messages must arrive in
+//	          order (C17); run under the race detector it is the workload of C18
+//	cut       a subscriber is cut off at a random moment while publishers deliver to it: the
+//	          publishers and a witness pair must not notice (C05)
+//	teardown  connections end for every cause in every buffer condition (idle, own outgoing ring
+//	          full, incoming ring full behind a third party's full ring, cross-blocked pairs) and
+//	          in every order: each teardown must finish, Server.Close must return, and no goroutine
+//	          of the library may remain (C16)
+//	keepalive silent and active clients with a keep-alive of one second (C19)
 package main
 
 import (
@@ -173,6 +173,15 @@ func subscriberLoop(c *client, f *failures, want map[int]int, done chan struct{}
 			if pub.QoS == 2 && rel[pub.PID] {
 				// a repeated identifier before our PUBCOMP: a duplicate delivery
 			}
+			if seq > next[pb] {
+				// messages are missing: with a subscriber being cut off at the same time that is C05, otherwise C01
+				prop := "C01"
+				if cutMode {
+					prop = "C05"
+				}
+				f.add("%s: subscriber %s received message %d of publisher %d (topic %s, QoS %d) where message %d was due: %d message(s) were not delivered to it", prop, c.id, seq, pb, pub.Topic, pub.QoS, next[pb], seq-next[pb])
+				return
+			}
 			if seq != next[pb] {
 				f.add("C17: subscriber %s received message %d of publisher %d (topic %s, QoS %d) where message %d was due: not in publication order", c.id, seq, pb, pub.Topic, pub.QoS, next[pb])
 				return
@@ -272,7 +281,10 @@ func (b *broker) shutdown(f *failures, what string) {
 
 // ---------------------------------------------------------------------------------------
 
+var cutMode bool
+
 func storm(r *hx.Rng, f *failures, stats map[string]int, cut bool) {
+	cutMode = cut
 	b := newBroker()
 	nPub, nSub := 3+r.Intn(3), 2+r.Intn(2)
 	per := 40 + r.Intn(40)
@@ -284,7 +296,24 @@ func storm(r *hx.Rng, f *failures, stats map[string]int, cut bool) {
 	var subs []*client
 	var dones []chan struct{}
 	var stop int32
+	var victim *client
+	victimAt := -1
+	if cut {
+		victimAt = r.Intn(nSub + 1) // its place in the order of subscription
+	}
+	addVictim := func() {
+		// one more subscriber that is cut off in the middle of the deliveries
+		v, err := b.connect("victim", 60, nil)
+		if err == nil {
+			v.write(mq.Subscribe(1, []string{"t/#"}, []int{1}))
+			v.read(5 * time.Second)
+			victim = v
+		}
+	}
 	for s := 0; s < nSub; s++ {
+		if s == victimAt {
+			addVictim()
+		}
 		c, err := b.connect(fmt.Sprintf("sub%d", s), 60, nil)
 		if err != nil {
 			f.add("harness: %v", err)
@@ -297,15 +326,8 @@ func storm(r *hx.Rng, f *failures, stats map[string]int, cut bool) {
 		}
 		subs = append(subs, c)
 	}
-	var victim *client
-	if cut {
-		// one more subscriber that is cut off in the middle of the deliveries
-		v, err := b.connect("victim", 60, nil)
-		if err == nil {
-			v.write(mq.Subscribe(1, []string{"t/#"}, []int{1}))
-			v.read(5 * time.Second)
-			victim = v
-		}
+	if victimAt == nSub {
+		addVictim()
 	}
 	for _, c := range subs {
 		d := make(chan struct{})
@@ -359,7 +381,7 @@ func storm(r *hx.Rng, f *failures, stats map[string]int, cut bool) {
 }
 
 // teardown scenarios: buffer conditions x causes of end x orders
-func teardown(r *hx.Rng, f *failures, stats map[string]int) {
+func teardown(r *hx.Rng, f *failures, stats map[string]int, cond int) {
 	b := newBroker()
 	what := ""
 	// a slow reader S that never reads its pipe, a publisher P that floods S's topic, a bystander pair
@@ -375,14 +397,31 @@ func teardown(r *hx.Rng, f *failures, stats map[string]int) {
 	s.read(5 * time.Second)
 	w.write(mq.Subscribe(1, []string{"w/#", "by/#"}, []int{1, 0}))
 	w.read(5 * time.Second)
-	cond := r.Intn(4)
+	if cond == 3 {
+		// cross-blocked: P receives what S publishes (and reads none of it)
+		p.write(mq.Subscribe(1, []string{"back/#"}, []int{0}))
+		p.read(5 * time.Second)
+	}
 	switch cond {
 	case 0:
 		what = "idle connections"
+	case 4:
+		// S receives its own publications and reads none of them: its processor blocks as the producer of its
+		// own outgoing ring
+		what = "processor blocked on the connection's own full outgoing ring"
+		go func() {
+			big := make([]byte, 30000)
+			for i := 0; i < 40; i++ {
+				if s.write(mq.Publish("flood/self", big, 0, false, false, 0)) != nil {
+					return
+				}
+			}
+		}()
+		time.Sleep(250 * time.Millisecond)
 	case 1, 2, 3:
 		// S stops reading: its outgoing ring (256 KiB) fills, then P's processor blocks in writeMessage
 		// on it, then P's incoming ring fills and P's receiver blocks for space
-		what = []string{"", "own outgoing ring full", "incoming ring full behind a third party's full outgoing ring", "cross-blocked publisher / subscriber"}[cond]
+		what = []string{"", "outgoing ring full", "incoming ring full behind a third party's full outgoing ring", "cross-blocked publisher / subscriber"}[cond]
 		go func() {
 			big := make([]byte, 30000)
 			for i := 0; i < 40; i++ {
@@ -806,7 +845,9 @@ func main() {
 			case "cut":
 				storm(r, f, stats, true)
 			case "teardown":
-				teardown(r, f, stats)
+				// the buffer conditions in turn: all five are covered by three rounds
+				teardown(r, f, stats, (2*i)%5)
+				teardown(r, f, stats, (2*i+1)%5)
 			case "churn":
 				churn(r, f, stats)
 			case "ackeffect":
